@@ -1,7 +1,7 @@
 #!/bin/bash
 # tools/merge_builder.sh <ID> — brings a builder's work (private copy /root/ws/<ID>/verif) into /verif:
 # tracked changes as a 3-way patch, new files copied; evidence / sweep results / replays are left out.
-set -eu
+set -u
 id=$1; ws=/root/ws/$id/verif; here=$(cd "$(dirname "$0")/.." && pwd)
 cd "$ws"
 git add -A -N . >/dev/null 2>&1 || true
